@@ -5,15 +5,23 @@ R13.2 deltaToTmunu: T30/T33 equal the direct moment expression of p^mu p^nu boos
 R13.3 linearity: no weight depends on deltaF
 R13.4 boundary points dropped consistently; container arithmetic maps each Delta to itself
 R13.5 cached momenta and Jacobians consumed by the moments stay mutually consistent under rescaling (typestate rule shared with C17)
+
+Recognition is spelling-independent: getDeltas is read through the forward substitution of c12 (`Flat`: locals, temporaries and
+simple helpers are replaced by their definitions) and every weight is compared as a sympy term over ROLE symbols (momenta,
+Jacobians, masses: identified by the public attribute / method they are read from); arguments are bound by keyword or position.
 """
 from __future__ import annotations
 
 import ast
+import copy
 
 import sympy as sp
 
-from ..core import AnchorMissing, Check, Undecided, calls_in, dotted, kwarg, own_nodes, src, slice_src
+from ..core import AnchorMissing, Check, FuncInfo, Undecided, calls_in, dotted, kwarg, own_nodes, src
+from ..flow import CFG
+from ..nf import Ctx, eqx, has, nf, same
 from ..terms import Extractor, SUM, is_zero
+from .c12 import Flat, Roles, _leaf_axis
 
 LEVEL = "other"
 BS = "boltzmann:BoltzmannSolver"
@@ -24,80 +32,119 @@ def n(x) -> str:
     return " ".join(src(x).split())
 
 
+def _fields(ci) -> list:
+    """field names of a dataclass, in declaration order"""
+    return [st.target.id for st in ci.node.body if isinstance(st, ast.AnnAssign) and isinstance(st.target, ast.Name)]
+
+
+def _ctor_args(call: ast.Call, fields: list) -> dict:
+    """{field: value} of a dataclass construction, keywords and positions alike"""
+    out = {f: a for f, a in zip(fields, call.args)}
+    for k in call.keywords:
+        if k.arg is not None:
+            out[k.arg] = k.value
+    return out
+
+
+def _none_given(param: str):
+    """the optional argument is given: decides `param is None` as False"""
+    def choose(t):
+        if eqx(t, f"{param} is None"):
+            return False
+        if eqx(t, f"{param} is not None"):
+            return True
+        return None
+    return choose
+
+
 def r13_1(chk: Check) -> None:
     S = chk.src
     fi = S.func(f"{BS}.getDeltas")
     chk.touch(fi.name)
+    prm = [p for p in fi.params() if p != "self"]
+    if len(prm) != 1:
+        raise AnchorMissing("getDeltas: expected the single parameter deltaF")
+    P = prm[0]
+    G = Flat(S, fi, choose=_none_given(P))
     ex = Extractor(S)
-    paths = [p for p in ex.paths(fi) if p.raised is None]
-    if not paths:
-        raise Undecided("getDeltas: no path")
-    env = paths[-1].env
+    env0 = {"__module__": "boltzmann", "__class__": "BoltzmannSolver"}
     # returned BoltzmannResults(... Deltas=BoltzmannDeltas(Delta00=..., ...))
-    ctor = [c for c in calls_in(fi.node, "BoltzmannDeltas")]
+    ctor = [c for _, v in G.returns for c in ast.walk(v) if isinstance(c, ast.Call) and (dotted(c.func) or "").split(".")[-1] == "BoltzmannDeltas"]
     if len(ctor) != 1:
-        raise AnchorMissing("getDeltas: BoltzmannDeltas(...) construction not found")
-    kw = {k.arg: ex.expr(k.value, env) for k in ctor[0].keywords}
-    chk.ob("R13.1", fi.where(ctor[0]), "BoltzmannDeltas is built with the four keywords Delta00, Delta02, Delta20, Delta11",
+        raise AnchorMissing("getDeltas: BoltzmannDeltas(...) construction not found in the returned result")
+    kw = _ctor_args(ctor[0], _fields(S.cls("containers:BoltzmannDeltas")))
+    where = fi.where(G.returns[0][0])
+    chk.ob("R13.1", where, "BoltzmannDeltas is built with the four keywords Delta00, Delta02, Delta20, Delta11",
            set(kw) == set(DELTAS), str(sorted(kw)), key="keywords")
-    pz, pp = ex.sym("self.grid.pzValues"), ex.sym("self.grid.ppValues")
-    msq = env.get("msq")
-    E = sp.sqrt(msq + pz**2 + pp**2) if isinstance(msq, sp.Basic) else None
-    # Jacobians: elements 1 and 2 of getCompactificationDerivatives()
-    jac = None
-    for st in own_nodes(fi.node):
-        if isinstance(st, ast.Assign) and isinstance(st.targets[0], ast.Tuple) and isinstance(st.value, ast.Call) \
-                and (dotted(st.value.func) or "") == "self.grid.getCompactificationDerivatives":
-            jac = [n(e) for e in st.targets[0].elts]
-    if jac is None or len(jac) != 3:
-        raise AnchorMissing("getDeltas: Jacobians not taken from self.grid.getCompactificationDerivatives()")
-    g = sp.Function("grid.getCompactificationDerivatives")()
-    J1, J2 = sp.Function("getitem")(g, 1), sp.Function("getitem")(g, 2)
-    base_ref = J1 * J2 * pp / (4 * sp.pi**2 * E) if E is not None else None
-    weights = {"Delta00": lambda: base_ref, "Delta02": lambda: pz**2 * base_ref, "Delta20": lambda: E**2 * base_ref,
-               "Delta11": lambda: E * pz * base_ref}
+    roles = Roles()
+    sy = ex.sym
+    E = sp.sqrt(sy("MSQ") + sy("PZ") ** 2 + sy("PP") ** 2)
+    base_ref = sy("JAC1") * sy("JAC2") * sy("PP") / (4 * sp.pi**2 * E)
+    weights = {"Delta00": base_ref, "Delta02": sy("PZ") ** 2 * base_ref, "Delta20": E**2 * base_ref, "Delta11": E * sy("PZ") * base_ref}
     desc = {"Delta00": "1", "Delta02": "p_z^2", "Delta20": "E^2", "Delta11": "E p_z"}
+    recvs = []
+    dependent = []
     for k in DELTAS:
         v = kw.get(k)
-        ok = None
-        how = ""
-        axes = None
-        if isinstance(v, sp.Basic) and v.func.__name__.endswith(".integrate") and len(v.args) == 2:
-            axes, w = v.args
-            ok, how = is_zero(w - weights[k](), chk.seed)
-            recv = v.func.__name__
-        chk.ob("R13.1", fi.where(ctor[0]), f"{k} = integral of deltaF * {desc[k]} * (dpz/drz)(dpp/drp) p_par/(4 pi^2 E), E^2 = m^2+pz^2+pp^2",
-               ok, f"found {v}; {how}"[:300], key=f"weight|{k}", how=how)
-        chk.ob("R13.1", fi.where(ctor[0]), f"{k} integrates over axes (2, 3) = (pz, pp)", axes == sp.Tuple(2, 3), str(axes), key=f"axes|{k}")
+        ok, how, axes, shown = None, "", None, ""
+        if isinstance(v, ast.Call) and isinstance(v.func, ast.Attribute) and v.func.attr == "integrate":
+            axes, w = kwarg(v, "axis", 0), kwarg(v, "weight", 1)
+            recvs.append(v.func.value)
+            if w is not None:
+                if any(isinstance(x, ast.Name) and x.id == P for x in ast.walk(w)) or has(w, "self.solveBoltzmannEquations()"):
+                    dependent.append(k)
+                a = roles.abstract(w)
+                ast.fix_missing_locations(a)
+                t = ex.expr(a, env0)
+                shown = str(t)
+                if isinstance(t, sp.Basic):
+                    ok, how = is_zero(t - weights[k], chk.seed)
+        elif v is not None:
+            ok = False
+            shown = n(v)[:120]
+        chk.ob("R13.1", where, f"{k} = integral of deltaF * {desc[k]} * (dpz/drz)(dpp/drp) p_par/(4 pi^2 E), E^2 = m^2+pz^2+pp^2",
+               ok, f"found {shown}; {how}"[:300], key=f"weight|{k}", how=how)
+        chk.ob("R13.1", where, f"{k} integrates over axes (2, 3) = (pz, pp)", axes is not None and (eqx(axes, "(2, 3)") or eqx(axes, "[2, 3]")),
+               n(axes) if axes is not None else "", key=f"axes|{k}")
     # the integrated polynomial: built from deltaF with directions (Array, z, pz, pp), then moved to the cardinal basis
-    poly = [c for c in calls_in(fi.node, "Polynomial")]
-    okp = False
-    if poly:
-        a = poly[0].args
-        okp = len(a) >= 4 and n(a[0]) == "deltaF" and n(a[3]).replace('"', "'") == "('Array', 'z', 'pz', 'pp')" \
-            and n(a[2]).replace('"', "'") == "('Array', self.basisM, self.basisN, self.basisN)"
+    okp = len(recvs) == 4 and all(same(r, recvs[0]) for r in recvs)
+    shown = ""
+    if okp:
+        c = recvs[0]
+        shown = n(c)[:160]
+        okp = isinstance(c, ast.Call) and (dotted(c.func) or "").split(".")[-1] == "Polynomial" and eqx(kwarg(c, "coefficients", 0), P) \
+            and eqx(kwarg(c, "direction", 3), "('Array', 'z', 'pz', 'pp')") and eqx(kwarg(c, "basis", 2), "('Array', self.basisM, self.basisN, self.basisN)") \
+            and eqx(kwarg(c, "grid", 1), "self.grid")
     chk.ob("R13.1", fi.where(), "the integrated Polynomial wraps deltaF with directions (Array, z, pz, pp) and bases (Array, basisM, basisN, basisN)",
-           okp, n(poly[0])[:160] if poly else "", key="poly")
+           okp, shown, key="poly")
     # broadcasting axes of pz / pp / Jacobians
-    want_axes = {"pz": "None, None, :, None", "pp": "None, None, None, :", "dpzdrz": "None, None, :, None", "dppdrp": "None, None, None, :"}
+    want_axes = {"PZ": (2, 4), "PP": (3, 4), "JAC1": (2, 4), "JAC2": (3, 4)}
     got_axes = {}
-    for st in own_nodes(fi.node):
-        if isinstance(st, ast.Assign) and isinstance(st.targets[0], ast.Name) and isinstance(st.value, ast.Subscript):
-            nm = st.targets[0].id
-            if nm in ("pz", "pp"):
-                got_axes[nm] = (slice_src(st.value.slice), n(st.value.value))
-            if nm in jac[1:]:
-                got_axes["dpzdrz" if nm == jac[1] else "dppdrp"] = (slice_src(st.value.slice), n(st.value.value))
-    ok = all(got_axes.get(k, ("",))[0] == v for k, v in want_axes.items()) and \
-        got_axes.get("pz", ("", ""))[1] == "self.grid.pzValues" and got_axes.get("pp", ("", ""))[1] == "self.grid.ppValues"
-    chk.ob("R13.1", fi.where(), "pz and dpz/drz (Jacobian element 1) live on axis 2, pp and dpp/drp (Jacobian element 2) on axis 3 of the (particle, z, pz, pp) array", ok,
-           str(got_axes), key="broadcast-axes")
+    okb = True
+    for sym, leaf in roles.leaves.values():
+        role = sym.split("__")[0]
+        if role in want_axes:
+            got_axes.setdefault(role, []).append((_leaf_axis(leaf), n(leaf)[:60]))
+            okb = okb and _leaf_axis(leaf) == want_axes[role] and "__" not in sym
+            if role == "PZ":
+                okb = okb and has(leaf, "self.grid.pzValues")
+            if role == "PP":
+                okb = okb and has(leaf, "self.grid.ppValues")
+            if role.startswith("JAC"):
+                okb = okb and has(leaf, "self.grid.getCompactificationDerivatives()")
+    okb = okb and set(got_axes) == set(want_axes)
+    chk.ob("R13.1", fi.where(), "pz and dpz/drz (Jacobian element 1) live on axis 2, pp and dpp/drp (Jacobian element 2) on axis 3 of the (particle, z, pz, pp) array", okb,
+           str(got_axes)[:300], key="broadcast-axes")
     chk.floor("R13.1", 13)
     # R13.3 linearity
-    dF = ex.sym("deltaF")
-    bad = [k for k in DELTAS if isinstance(kw.get(k), sp.Basic) and kw[k].args[1].has(dF)]
-    chk.ob("R13.3", fi.where(), "no integration weight depends on deltaF (moments are linear in the deviation)", not bad, str(bad), key="linear")
+    chk.ob("R13.3", fi.where(), "no integration weight depends on deltaF (moments are linear in the deviation)", not dependent, str(dependent), key="linear")
     chk.floor("R13.3", 1)
+
+
+def _arg_values(a0) -> list:
+    if isinstance(a0, (ast.Tuple, ast.List)):
+        return [e.value if isinstance(e, ast.Constant) else n(e) for e in a0.elts]
+    return [a0.value if isinstance(a0, ast.Constant) else n(a0)]
 
 
 def cardinal_before_weights(chk: Check, rule: str) -> None:
@@ -108,50 +155,90 @@ def cardinal_before_weights(chk: Check, rule: str) -> None:
     for fname in ("getDeltas", "checkLinearization"):
         fi = S.func(f"{BS}.{fname}")
         chk.touch(fi.name)
+        cx = Ctx(S, fi)
+        g = CFG(fi.node)
+        # every Polynomial object of the function: local name -> constructor call
         polys = {}
         for st in own_nodes(fi.node):
-            if isinstance(st, ast.Assign) and isinstance(st.value, ast.Call) and n(st.value.func) == "Polynomial" \
-                    and isinstance(st.targets[0], ast.Name) and len(st.value.args) >= 3:
-                polys[st.targets[0].id] = st.value
+            if isinstance(st, (ast.Assign, ast.AnnAssign)) and st.value is not None:
+                tg = st.targets[0] if isinstance(st, ast.Assign) else st.target
+                v = cx.resolve(st.value, keep={tg.id} if isinstance(tg, ast.Name) else set())
+                if isinstance(tg, ast.Name) and isinstance(v, ast.Call) and (dotted(v.func) or "").split(".")[-1] == "Polynomial":
+                    polys[tg.id] = v
         for name, ctor in polys.items():
-            bases = ctor.args[2]
-            declared = [n(e) for e in bases.elts] if isinstance(bases, ast.Tuple) else [n(bases)]
-            uses_solver_basis = any("self.basis" in d for d in declared)
-            integ = [c for c in calls_in(fi.node, "integrate") if n(c.func) == f"{name}.integrate"]
+            bases = kwarg(ctor, "basis", 2)
+            if bases is None:
+                continue
+            bases = cx.resolve(bases)
+            uses_solver_basis = any(isinstance(x, ast.Attribute) and x.attr in ("basisM", "basisN") for x in ast.walk(bases))
+            integ = [c for c in calls_in(fi.node, "integrate") if eqx(c.func, f"{name}.integrate")]
             if not integ or not uses_solver_basis:
                 continue
-            conv = [c for c in calls_in(fi.node, "changeBasis") if n(c.func) == f"{name}.changeBasis" and c.lineno < integ[0].lineno]
-            ok = False
-            detail = "no changeBasis before integrate"
-            if conv:
-                a0 = conv[-1].args[0]
-                tup = [e.value if isinstance(e, ast.Constant) else n(e) for e in a0.elts] if isinstance(a0, ast.Tuple) else [n(a0)]
-                ok = all(t in ("Array", "Cardinal") for t in tup) and tup.count("Cardinal") >= 3
-                detail = str(tup)
+            conv = [c for c in calls_in(fi.node, "changeBasis") if eqx(c.func, f"{name}.changeBasis")]
+            good, other, detail = [], [], "no changeBasis before integrate"
+            for c in conv:
+                a0 = kwarg(c, "newBasis", 0)
+                tup = _arg_values(cx.resolve(a0)) if a0 is not None else []
+                node = g.node_of(c)
+                if tup and all(t in ("Array", "Cardinal") for t in tup) and tup.count("Cardinal") >= 3:
+                    good.append(node)
+                    detail = str(tup)
+                else:
+                    other.append(node)
+                    if not good:
+                        detail = str(tup)
+            ok = bool(good)
+            for c in integ:
+                nd = g.node_of(c)
+                ok = ok and nd is not None and g.must_pass(CFG.ENTRY, nd, lambda q: any(q is x for x in good)) \
+                    and not any(g.reaches([b], nd, avoid=lambda q: any(q is x for x in good)) for b in other if b is not None)
+            coef = kwarg(ctor, "coefficients", 0)
+            label = f"{n(coef)}Poly" if isinstance(coef, ast.Name) else name
             chk.ob(rule, fi.where(integ[0]), f"{fname}: `{name}` is converted to the Cardinal basis on all polynomial axes before z-dependent "
-                   "weights are multiplied in (basis independence of the derived quantities)", ok, detail, key=f"cardinal|{fname}|{name}")
+                   "weights are multiplied in (basis independence of the derived quantities)", ok, detail, key=f"cardinal|{fname}|{label}")
+
+
+def _alpha(fi: FuncInfo) -> FuncInfo:
+    """copy of the function with the variables bound by comprehensions renamed canonically (_k0, _k1, ... in target order)"""
+    node = copy.deepcopy(fi.node)
+    for x in ast.walk(node):
+        if isinstance(x, (ast.ListComp, ast.GeneratorExp, ast.SetComp, ast.DictComp)):
+            ren = {}
+            for gen in x.generators:
+                for t in ast.walk(gen.target):
+                    if isinstance(t, ast.Name) and t.id not in ren and not t.id.startswith("_k"):
+                        ren[t.id] = f"_k{len(ren)}"
+            for y in ast.walk(x):
+                if isinstance(y, ast.Name) and y.id in ren:
+                    y.id = ren[y.id]
+    return FuncInfo(fi.module, fi.qual, node, fi.cls, fi.parent)
 
 
 def r13_2(chk: Check) -> None:
     S = chk.src
     fi = S.func("equationOfMotion:EOM.deltaToTmunu")
     chk.touch(fi.name)
+    prm = [p for p in fi.params() if p != "self"]
+    if len(prm) != 4:
+        raise AnchorMissing("deltaToTmunu: expected the parameters (index, fields, velocityMid, offEquilDeltas)")
+    P_INDEX, P_FIELDS, P_V, P_DELTAS = prm
     ex = Extractor(S, inline=lambda nm: nm.startswith("helpers:"))
-    ps = [p for p in ex.paths(fi) if p.raised is None]
+    ps = [p for p in ex.paths(_alpha(fi)) if p.raised is None]
     if len(ps) != 1 or not isinstance(ps[0].value, tuple) or len(ps[0].value) != 2:
         raise Undecided("deltaToTmunu: expected one path returning (T30, T33)")
     T30, T33 = ps[0].value
     env = dict(ps[0].env)
-    env["i"] = ex.sym("i")
-    env["particle"] = ex.sym("particle")
+    # the sums run over enumerate(self.particles): _k0 is the position, _k1 the particle
+    env["_k0"] = ex.sym("_k0")
+    env["_k1"] = ex.sym("_k1")
 
     def atom(text):
         return ex.expr(ast.parse(text, mode="eval").body, env)
 
-    D = {k: atom(f"offEquilDeltas.{k}.coefficients[:, index][i]") for k in DELTAS}
-    m2 = atom("particle.msqVacuum(fields)")
-    dof = atom("particle.totalDOFs")
-    v = ex.sym("velocityMid")
+    D = {k: atom(f"{P_DELTAS}.{k}.coefficients[:, {P_INDEX}][_k0]") for k in DELTAS}
+    m2 = atom(f"_k1.msqVacuum({P_FIELDS})")
+    dof = atom("_k1.totalDOFs")
+    v = ex.sym(P_V)
     eta = sp.Symbol("eta", real=True)
     gam = 1 / sp.sqrt(1 - v**2)
     u = {0: gam, 3: gam * v}
@@ -174,92 +261,121 @@ def r13_2(chk: Check) -> None:
                "with u = gamma(1, v), ub = gamma(v, 1): the direct integral of p^mu p^nu deltaF boosted to the wall frame", ok, how,
                key=f"tmunu|{name}", how=how)
     # the four moments are read from the attributes of the same name, at the grid index, for all particles
-    okr = True
-    for k in DELTAS:
-        if f"offEquilDeltas.{k}.coefficients" not in " ".join(n(s) for s in own_nodes(fi.node) if isinstance(s, ast.Assign)):
-            okr = False
+    okr = all(has(list(fi.node.body), f"{P_DELTAS}.{k}.coefficients") for k in DELTAS)
     chk.ob("R13.2", fi.where(), "all four moments of the container are consumed", okr, key="all-moments")
-    # caller pairing: (Tout30, Tout33) = deltaToTmunu(...); s1 = c1 - Tout30 ; s2 = c2 - Tout33
+    # caller pairing: the solver is handed  c1 - T30  and  c2 - T33  (tuple positions 0 and 1 of deltaToTmunu)
     fp = S.func("equationOfMotion:EOM.findPlasmaProfilePoint")
     chk.touch(fp.name)
-    ex2 = Extractor(S)
-    env2 = None
-    for st in fp.node.body:
-        pass
-    tup = None
-    for st in own_nodes(fp.node):
-        if isinstance(st, ast.Assign) and isinstance(st.value, ast.Call) and n(st.value.func) == "self.deltaToTmunu" \
-                and isinstance(st.targets[0], ast.Tuple):
-            tup = [n(e) for e in st.targets[0].elts]
-            callargs = [n(a) for a in st.value.args]
+    calls = calls_in(fp.node, "deltaToTmunu")
+    G = Flat(S, fp)
     s = {}
-    for st in own_nodes(fp.node):
-        if isinstance(st, ast.Assign) and isinstance(st.targets[0], ast.Name) and isinstance(st.value, ast.BinOp) \
-                and isinstance(st.value.op, ast.Sub) and tup and n(st.value.right) in tup:
-            s[n(st.value.left)] = tup.index(n(st.value.right))
+    call = None
+    rc = {nf(c): c for vals in G.defs.values() for v_ in vals for c in ast.walk(v_) if isinstance(c, ast.Call) and (dotted(c.func) or "").endswith("deltaToTmunu")}
+    if len(calls) == 1 and len(rc) == 1:
+        call = next(iter(rc.values()))
+        ctxt = n(call)
+        for vals in G.defs.values():
+            for val in vals:
+                for c_ in ("c1", "c2"):
+                    for pos in (0, 1):
+                        if eqx(val, f"{c_} - {ctxt}[{pos}]"):
+                            s.setdefault(c_, set()).add(pos)
     chk.ob("R13.2", fp.where(), "T30 is subtracted from c1 and T33 from c2 (tuple positions 0 and 1 of deltaToTmunu)",
-           s == {"c1": 0, "c2": 1}, str(s), key="pairing|c1c2")
+           s == {"c1": {0}, "c2": {1}}, str(s), key="pairing|c1c2")
+    okc = call is not None and all(eqx(kwarg(call, p_, i), p_) for i, p_ in enumerate((P_INDEX, P_FIELDS, P_V, P_DELTAS))) and len(call.args) + len(call.keywords) == 4
     chk.ob("R13.2", fp.where(), "deltaToTmunu is called with (index, fields, velocityMid, offEquilDeltas)",
-           tup is not None and callargs == ["index", "fields", "velocityMid", "offEquilDeltas"], str(callargs if tup else None), key="call-args")
+           okc, n(call) if call is not None else f"{len(calls)} calls", key="call-args")
     chk.floor("R13.2", 5)
+
+
+def _builder(ci, meth: str, depth: int = 0):
+    """the method that constructs the result of ci.<meth>, looking through plain delegation to a sibling method
+    (`return self.__mul__(number)`, `return self * number`, class-level `__rmul__ = __mul__`)"""
+    if depth > 3:
+        return None
+    fm = ci.methods.get(meth)
+    if fm is None:
+        alias = ci.consts.get(meth)
+        if isinstance(alias, ast.Name) and alias.id != meth:
+            return _builder(ci, alias.id, depth + 1)
+        return None
+    body = [st for st in fm.node.body if not (isinstance(st, ast.Expr) and isinstance(st.value, ast.Constant) and isinstance(st.value.value, str))]
+    prm = [p for p in fm.params() if p != "self"]
+    if len(body) == 1 and isinstance(body[0], ast.Return) and body[0].value is not None and len(prm) == 1:
+        v = body[0].value
+        for sib in ci.methods:
+            if sib != meth and (eqx(v, f"self.{sib}({prm[0]})") or eqx(v, f"{ci.name}.{sib}(self, {prm[0]})")):
+                return _builder(ci, sib, depth + 1)
+        if meth == "__rmul__" and isinstance(v, ast.BinOp) and isinstance(v.op, ast.Mult) and eqx(v.left, "self") and eqx(v.right, prm[0]):
+            return _builder(ci, "__mul__", depth + 1)
+    return fm
 
 
 def r13_4(chk: Check) -> None:
     S = chk.src
     fi = S.func(f"{BS}.getDeltas")
-    ts = calls_in(fi.node, "takeSlice")
+    cx = Ctx(S, fi)
+    ts = [c for c in calls_in(fi.node, "takeSlice")]
     ok = False
     if ts:
-        a = [n(x) for x in ts[0].args]
-        ax = kwarg(ts[0], "axis", 2)
-        ok = a[:2] == ["1", "-1"] and ax is not None and n(ax).endswith("overFieldPoints")
+        a0, a1, ax = kwarg(ts[0], "idxStart", 0), kwarg(ts[0], "idxEnd", 1), kwarg(ts[0], "axis", 2)
+        axr = cx.resolve(ax) if ax is not None else None
+        ok = eqx(a0, "1", cx) and eqx(a1, "-1", cx) and axr is not None and ((isinstance(axr, ast.Attribute) and axr.attr == "overFieldPoints") or eqx(axr, "0")) \
+            and isinstance(ts[0].func, ast.Attribute) and eqx(ts[0].func.value, "self.background.fieldProfiles", cx)
     chk.ob("R13.4", fi.where(), "field profile drops exactly the two boundary points (takeSlice(1, -1) along the point axis) that deltaF lacks",
            ok, n(ts[0]) if ts else "", key="boundary-drop")
     ft = S.func("fields:Fields.takeSlice")
     chk.touch(ft.name)
-    txt = " ".join(n(s) for s in ft.node.body)
-    ok = "if axis == self.overFieldPoints: return self[idxStart:idxEnd, :]" in txt.replace("  ", " ") or \
-         ("self[idxStart:idxEnd, :]" in txt and "self[:, idxStart:idxEnd]" in txt and "axis == self.overFieldPoints" in txt)
+    prm = [p for p in ft.params() if p != "self"]
+    ok = False
+    if len(prm) == 3:
+        A, B, AX = prm
+
+        def mode(points: bool):
+            def choose(t):
+                for txt, val in ((f"{AX} == self.overFieldPoints", True), (f"{AX} != self.overFieldPoints", False), (f"{AX} == self.overFieldTypes", False),
+                                 (f"{AX} != self.overFieldTypes", True), (f"{AX} == 0", True), (f"{AX} == 1", False)):
+                    if eqx(t, txt):
+                        return val == points
+                return None
+            return choose
+        rows, cols = Flat(S, ft, choose=mode(True)), Flat(S, ft, choose=mode(False))
+        ok = len(rows.returns) == 1 and len(cols.returns) == 1 and bool(rows.decided) and bool(cols.decided) \
+            and (eqx(rows.returns[0][1], f"self[{A}:{B}, :]") or eqx(rows.returns[0][1], f"self[{A}:{B}]")) and eqx(cols.returns[0][1], f"self[:, {A}:{B}]")
     chk.ob("R13.4", ft.where(), "Fields.takeSlice slices rows for the point axis and columns for the field axis", ok, key="takeSlice")
     fcls = S.cls("fields:Fields")
     vals = {k: (v.value if isinstance(v, ast.Constant) else None) for k, v in fcls.consts.items()}
     chk.ob("R13.4", "src/WallGo/fields.py", "Fields.overFieldPoints == 0 and overFieldTypes == 1 (points x fields layout)",
            vals.get("overFieldPoints") == 0 and vals.get("overFieldTypes") == 1, str(vals), key="axes-consts")
     # container arithmetic
-    for cname, attrs, mod in (("BoltzmannDeltas", DELTAS, "containers"),):
+    for cname, attrs, mod, checked in (("BoltzmannDeltas", DELTAS, "containers", DELTAS), ("BoltzmannResults", None, "results", ("deltaF", "Deltas"))):
         ci = S.cls(f"{mod}:{cname}")
+        flds = _fields(ci)
         for meth in ("__mul__", "__rmul__", "__add__"):
-            fm = ci.methods.get(meth)
+            fm = _builder(ci, meth)
             if fm is None:
                 raise AnchorMissing(f"{cname}.{meth} not found")
             chk.touch(fm.name)
-            c = [x for x in calls_in(fm.node, cname)]
+            cm = Ctx(S, fm)
+            rets = [cm.resolve(r.value) for r in own_nodes(fm.node) if isinstance(r, ast.Return) and r.value is not None]
+            c = [x for r in rets for x in ast.walk(r) if isinstance(x, ast.Call) and (dotted(x.func) or "").split(".")[-1] == cname]
             bad = []
-            if not c:
+            if len(c) != 1 or len(rets) != 1:
                 bad.append("no constructor call")
             else:
-                for k in c[0].keywords:
-                    used = {x.attr for x in ast.walk(k.value) if isinstance(x, ast.Attribute) and x.attr in attrs}
-                    if used != {k.arg}:
-                        bad.append(f"{k.arg} built from {sorted(used)}")
-                if {k.arg for k in c[0].keywords} != set(attrs):
-                    bad.append("keywords missing")
-            chk.ob("R13.4", fm.where(), f"{cname}.{meth} maps each moment to itself", not bad, "; ".join(bad), key=f"container|{cname}.{meth}")
-    ci = S.cls("results:BoltzmannResults")
-    for meth in ("__mul__", "__rmul__", "__add__"):
-        fm = ci.methods.get(meth)
-        if fm is None:
-            raise AnchorMissing(f"BoltzmannResults.{meth} not found")
-        chk.touch(fm.name)
-        c = [x for x in calls_in(fm.node, "BoltzmannResults")]
-        bad = []
-        for k in (c[0].keywords if c else []):
-            if k.arg in ("deltaF", "Deltas"):
-                used = {x.attr for x in ast.walk(k.value) if isinstance(x, ast.Attribute) and x.attr in ("deltaF", "Deltas")}
-                if used != {k.arg}:
-                    bad.append(f"{k.arg} built from {sorted(used)}")
-        chk.ob("R13.4", fm.where(), f"BoltzmannResults.{meth} combines deltaF with deltaF and Deltas with Deltas", bool(c) and not bad,
-               "; ".join(bad), key=f"container|BoltzmannResults.{meth}")
+                given = _ctor_args(c[0], flds)
+                for k in checked:
+                    if k not in given:
+                        bad.append(f"{k} missing")
+                        continue
+                    used = {x.attr for x in ast.walk(given[k]) if isinstance(x, ast.Attribute) and x.attr in checked}
+                    if used != {k}:
+                        bad.append(f"{k} built from {sorted(used)}")
+            if cname == "BoltzmannDeltas":
+                chk.ob("R13.4", fm.where(), f"{cname}.{meth} maps each moment to itself", not bad, "; ".join(bad), key=f"container|{cname}.{meth}")
+            else:
+                chk.ob("R13.4", fm.where(), f"BoltzmannResults.{meth} combines deltaF with deltaF and Deltas with Deltas", not bad,
+                       "; ".join(bad), key=f"container|BoltzmannResults.{meth}")
     chk.floor("R13.4", 9)
 
 
